@@ -494,6 +494,32 @@ fn death_case(b: &dyn Block, i: u64, mode: &str, sel: Option<Sel>, skip: &[u64])
     c
 }
 
+/// Run one case alone in a fresh child.  A timeout counts only if a second fresh
+/// run of the same case times out as well (a real hang is deterministic; a
+/// stall of an overloaded machine is not).
+fn run_single(b: &dyn Block, bi: usize, i: u64, ctx: &Ctx, shared: &Shared, env: &mut Env) -> (Vec<(usize, Out)>, Option<iso::Died>) {
+    let mut attempt = |env: &mut Env| {
+        iso::run_child(&ctx.scratch, shared, |em| {
+            shared.set_block(bi as u64);
+            let mut out = Out::default();
+            child_run_block(b, &Mode::Only(i), 0, env, shared, &mut out, HANG_CONFIRM_MULT, None, None);
+            em.emit(bi, &out);
+        })
+    };
+    let (outs, died) = attempt(env);
+    match &died {
+        Some(d) if d.how.starts_with("hang") => {
+            let (outs2, died2) = attempt(env);
+            match &died2 {
+                Some(d2) if d2.how.starts_with("hang") => (outs2, died2),
+                Some(_) => (outs2, died2),
+                None => (outs2, None),
+            }
+        }
+        _ => (outs, died),
+    }
+}
+
 /// Run blocks `from..` in one forked child; on a death attribute the case,
 /// confirm it alone in a fresh child (once per block and signature), skip it
 /// and resume the block after its last completed chunk.
@@ -529,7 +555,7 @@ fn run_group(blocks: &[Box<dyn Block>], sels: &[Sel], from: usize, mut skips: BT
                     child_run_block(b, &Mode::All { sel: sels[bi], skip }, first, env, shared, &mut out, 1, Some(dl), Some(&mut e));
                 }
                 let top = b.info().dec.split('.').next().unwrap_or("").to_string();
-                *out.counters.entry(format!("{top}.cpu_ms")).or_insert(0) += t0.elapsed().as_millis() as u64;
+                *out.counters.entry(format!("{top}.child_wall_ms")).or_insert(0) += t0.elapsed().as_millis() as u64;
                 let stop = out.capped.is_some();
                 em.emit(bi, &out);
                 if stop {
@@ -563,12 +589,7 @@ fn run_group(blocks: &[Box<dyn Block>], sels: &[Sel], from: usize, mut skips: BT
             let sig = format!("C23/{}.{}/{}/{}", info.dec, d.sub, info.kind, d.how);
             rep.violation("C23", "no-crash", &sig, || death_case(b, d.at, "single", None, &[]), "call returns Ok or Err", &format!("child process died: {}", d.how));
         } else {
-            let (single_outs, single) = iso::run_child(&ctx.scratch, shared, |em| {
-                shared.set_block(bi as u64);
-                let mut out = Out::default();
-                child_run_block(b, &Mode::Only(d.at), 0, env, shared, &mut out, HANG_CONFIRM_MULT, None, None);
-                em.emit(bi, &out);
-            });
+            let (single_outs, single) = run_single(b, bi, d.at, ctx, shared, env);
             match single {
                 Some(d2) => {
                     let sig = format!("C23/{}.{}/{}/{}", info.dec, d2.sub, info.kind, d2.how);
@@ -620,6 +641,8 @@ enum Kind {
     InsShift,
     DelShift,
     ZeroTail,
+    /// WAL only: substitute one byte of a frame header field and recompute the frame checksum
+    WalFixSum,
 }
 impl Kind {
     fn name(self) -> &'static str {
@@ -632,6 +655,7 @@ impl Kind {
             Kind::InsShift => "insert-shift",
             Kind::DelShift => "delete-shift",
             Kind::ZeroTail => "zero-tail",
+            Kind::WalFixSum => "hdr-subst-fixsum",
         }
     }
 }
@@ -665,8 +689,10 @@ fn kind_count(seed: &[u8], kind: Kind, offs: &[u32]) -> u64 {
         Kind::Subst => offs.len() as u64 * subst_values(seed.len()) as u64,
         Kind::Trunc | Kind::Delete | Kind::DelShift | Kind::ZeroTail => offs.len() as u64,
         Kind::Insert | Kind::InsShift => (offs.len() as u64 + 1) * 6,
+        Kind::WalFixSum => (seed.len() / WAL_FRAME) as u64 * 24 * 8,
     }
 }
+const WAL_FRAME: usize = 32 + PAGE;
 
 /// Build mutated bytes into `buf`; None = void case (identity or duplicate).
 fn mutate(seed: &[u8], kind: Kind, i: u64, offs: &[u32], buf: &mut Vec<u8>) -> Option<Value> {
@@ -710,6 +736,23 @@ fn mutate(seed: &[u8], kind: Kind, i: u64, offs: &[u32], buf: &mut Vec<u8>) -> O
             buf.extend_from_slice(&seed[..off]);
             buf.resize(seed.len(), 0);
             Some(json!({"off": off}))
+        }
+        Kind::WalFixSum => {
+            let frame = (i / (24 * 8)) as usize;
+            let off = ((i / 8) % 24) as usize;
+            let b = seed[frame * WAL_FRAME + off];
+            let list = [0x00, 0x01, 0x7F, 0x80, 0xFE, 0xFF, b ^ 1, b ^ 0x80];
+            let j = (i % 8) as usize;
+            let v = list[j];
+            if v == b || list[..j].contains(&v) {
+                return None;
+            }
+            buf.extend_from_slice(seed);
+            let base = frame * WAL_FRAME;
+            buf[base + off] = v;
+            let sum = dec3::crc64_ecma(&[&buf[base..base + 24], &buf[base + 32..base + WAL_FRAME]]);
+            buf[base + 24..base + 32].copy_from_slice(&sum.to_le_bytes());
+            Some(json!({"frame": frame, "off": off, "val": v, "checksum_recomputed": true}))
         }
         Kind::Insert | Kind::InsShift => {
             let k = (i / 6) as usize;
@@ -780,9 +823,12 @@ pub struct Decoder {
 
 fn offsets_for(seed: &Seed, quick: bool, stride_quick: usize, io: bool) -> Vec<u32> {
     let n = seed.bytes.len();
-    if !quick || n <= if io { ALL_VALUES_MAX_LEN } else { 1024 } {
+    // thorough: every offset, except the checksummed page payload of WAL segments (every 16th byte)
+    let thorough_sparse = !quick && io && n > 2048;
+    if (!quick && !thorough_sparse) || n <= if io { ALL_VALUES_MAX_LEN } else { 1024 } {
         return (0..n as u32).collect();
     }
+    let stride_quick = if thorough_sparse { 16 } else { stride_quick };
     let mut keep = vec![false; n];
     for r in &seed.dense {
         for i in r.start.min(n)..r.end.min(n) {
@@ -2072,7 +2118,11 @@ fn part_a_blocks(ctx: &Ctx, only_key: Option<&str>) -> Vec<Box<dyn Block>> {
                 continue;
             }
             let kinds: &[Kind] = if d.page { &[Kind::Identity, Kind::Subst, Kind::Trunc, Kind::InsShift, Kind::DelShift, Kind::ZeroTail] } else { &[Kind::Identity, Kind::Subst, Kind::Trunc, Kind::Insert, Kind::Delete] };
-            for &k in kinds {
+            let mut kinds: Vec<Kind> = kinds.to_vec();
+            if d.name == "wal" {
+                kinds.push(Kind::WalFixSum);
+            }
+            for k in kinds {
                 let key = format!("A/{}/{}/{}", d.name, seed.name, k.name());
                 if let Some(o) = only_key {
                     if o != key {
@@ -2357,16 +2407,11 @@ mod partb {
             // restore the working copy in place (no truncate/unlink of the pristine files: page
             // allocation is very expensive on the sandbox VM), remove whatever the engine added
             let work = env.scratch.join(format!("b_work_{}", self.plan.db.name));
-            let t0 = std::time::Instant::now();
             restore_tree(&work, &self.plan.db.files, self.file, patched.as_deref());
-            let t_restore = t0.elapsed().as_micros() as u64;
             let _ = rel;
             let case = || self.describe(i);
             let mut r = Rec { out, dec: &self.info.dec, kind: &self.info.kind, case: &case, seen, scratch: &env.scratch, shared: &env.shared };
-            let t1 = std::time::Instant::now();
             if let Some(db) = r.call("open", || Database::open(&work)) {
-                r.count("db.open_us", t1.elapsed().as_micros() as u64);
-                let t2 = std::time::Instant::now();
                 for (t, pk, ix) in self.plan.tables {
                     if self.only_table.map(|o| o != *t).unwrap_or(false) {
                         continue;
@@ -2376,16 +2421,9 @@ mod partb {
                     r.call("pk_lookup", || db.query(pk).map(|v| v.len()));
                     r.call("index_lookup", || db.query(ix).map(|v| v.len()));
                 }
-                r.count("db.query_us", t2.elapsed().as_micros() as u64);
-                let t3 = std::time::Instant::now();
                 r.call("close", || db.close());
-                r.count("db.close_us", t3.elapsed().as_micros() as u64);
-                let t4 = std::time::Instant::now();
                 r.inf("drop", move || drop(db));
-                r.count("db.drop_us", t4.elapsed().as_micros() as u64);
             }
-            r.count("db.restore_us", t_restore);
-            r.count("db.engine_us", t0.elapsed().as_micros() as u64 - t_restore);
             !matches!(self.cases[i as usize], BCase::Identity)
         }
     }
@@ -2417,6 +2455,9 @@ mod partb {
                 let (rel, _) = &plan.db.files[file];
                 let key = format!("B/{}/{}/{}", plan.db.name, rel, kind);
                 if only_key.map(|k| k != key).unwrap_or(false) || cases.is_empty() {
+                    return;
+                }
+                if only_key.is_none() && ctx.opt("bsel").map(|f| !key.contains(f)).unwrap_or(false) {
                     return;
                 }
                 let n = cases.len() as u64;
@@ -2463,7 +2504,7 @@ impl Check for C23 {
             "PART A: for every pub decoder and every seed (a valid encoding built with the real encoder, one per structural shape): every single-byte substitution at every offset (all 256 values for seeds <= 160 bytes, else {00,01,7F,80,FE,FF,b^1,b^80}), every truncation length, every single-byte insertion ({00,01,7F,80,FE,FF}) and deletion at every offset (page-sized inputs: size-preserving shift variants and zeroed tails), all byte strings of length <= 2 over 256 values and length 3 over 16 values, constant/periodic strings of length 64/1024/16384; inputs end at a PROT_NONE page. PART B: for every file of a real 3-table database (secondary index, TOAST values, 2-level tree) and of a WAL-crashed database: byte substitutions {00,FF,b^1,b^80} over file headers, page headers, slot arrays, cell headers (other bytes in strides) and truncations to every page multiple and +-1, each followed by Database::open, SELECT *, COUNT(*), PK lookup, indexed lookup per table, close. A case is one mutated input; cases are pairwise distinct by construction (identity and duplicate substitutions are skipped); every case differs from a valid encoding (non-trivial).",
         );
         s.assumptions = &[
-            "oracle = every call returns Ok or Err in bounded time: a panic (caught per call), abort, SIGSEGV/SIGBUS (guard page), stack overflow or hang (a case consuming more than 2 s of CPU time — or 60 s of wall time without CPU — inside its block AND 3x that when re-run alone in a fresh process) is a violation; returned values are not compared",
+            "oracle = every call returns Ok or Err in bounded time: a panic (caught per call), abort, SIGSEGV/SIGBUS (guard page), stack overflow or hang (a case consuming more than 2 s of CPU time — or 60 s of wall time without CPU — inside its block AND 3x that in each of two re-runs alone in fresh processes) is a violation; returned values are not compared",
             "children run with RLIMIT_AS = 1.5 GiB and RLIMIT_FSIZE = 1 GiB: an allocation or file growth beyond that requested by a <= 64 KiB input counts as abort / Err",
             "built with debug-assertions and overflow-checks on (workspace dev profile): arithmetic overflow panics are reported with class *-overflow",
             "two or more simultaneous byte errors are outside the bound (except zeroed tails, truncations and checksum-consistent WAL header edits)",
@@ -2476,24 +2517,6 @@ impl Check for C23 {
 
     fn run(&self, ctx: &Ctx, rep: &mut Reporter) {
         quiet_env();
-        if ctx.opt("dumpseed").is_some() {
-            for db in [seeddb::main(&ctx.scratch), seeddb::walcrash(&ctx.scratch)] {
-                for (p, b) in &db.files {
-                    eprintln!("{} {} {}", db.name, p, b.len());
-                }
-            }
-            for (n, b) in seeddb::catalogs(&ctx.scratch) {
-                eprintln!("catalog {} {}", n, b.len());
-            }
-            for e in std::fs::read_dir(&ctx.scratch).unwrap() {
-                let p = e.unwrap().path().join("ddl_failed.txt");
-                if p.exists() {
-                    eprintln!("{}", std::fs::read_to_string(&p).unwrap());
-                }
-            }
-            rep.bulk(1, 1);
-            return;
-        }
         let shared = std::rc::Rc::new(Shared::new());
         let mut env = Env::new(&ctx.scratch, shared.clone());
         let blocks = all_blocks(ctx, None);
@@ -2501,7 +2524,7 @@ impl Check for C23 {
         rep.bound("part_a_offsets", if ctx.quick() {
             json!("quick: every offset for seeds <= 1024 bytes (file-based decoders catalog_file/wal: <= 160 bytes); larger seeds: structural regions (headers, used page areas) dense + stride 64 (subst) / 256 (other kinds); file-based decoders: header regions dense + stride 16 (<= 2 KiB) / 1024")
         } else {
-            json!("thorough: every offset of every seed for every mutation kind")
+            json!("thorough: every offset of every seed for every mutation kind (WAL segment seeds: frame headers and page headers dense, checksummed page payload every 16th byte)")
         });
         rep.bound("blocks", json!(blocks.len()));
         rep.bound("hang_limit_s", json!({"A": HANG_A_S, "B": HANG_B_S}));
@@ -2582,12 +2605,7 @@ impl Check for C23 {
                 if i >= info.n {
                     vcore::machinery("C23 replay: case index out of range");
                 }
-                let (outs, died) = iso::run_child(&ctx.scratch, &shared, |em| {
-                    shared.set_block(bi as u64);
-                    let mut out = Out::default();
-                    child_run_block(b.as_ref(), &Mode::Only(i), 0, &mut env, &shared, &mut out, HANG_CONFIRM_MULT, None, None);
-                    em.emit(bi, &out);
-                });
+                let (outs, died) = run_single(b.as_ref(), bi, i, ctx, &shared, &mut env);
                 for (_, o) in &outs {
                     merge_out(rep, info, o);
                 }
